@@ -40,6 +40,8 @@ def proto_runs(mode):
             runs += [("main", ["--mode", mode, "--a", "1", "--b", "1", "--mtu", "1500", "--wifi", "0"])]
         if mode == "c02":               # every (service, opcode, sequence number, sender, destination) frame in 4 states
             runs += [("main", ["--mode", mode, "--a", "4", "--mtu", "1500", "--wifi", "0"])]
+        if mode == "c03":               # every single failing getter, and all of them
+            runs += [("main", ["--mode", mode, "--a", "5", "--mtu", "1500", "--wifi", "1"])]
         if mode == "c03":               # every 16-bit generation / sequence number in 10 states per service
             runs += [("main", ["--mode", mode, "--a", "3", "--mtu", "1500", "--wifi", "0"])]
         if mode in ("c02", "c03"):      # a platform whose machine name exceeds the 32 bytes a Hello may carry
@@ -68,7 +70,7 @@ def obs_runs(mode):
 
 
 def c06_runs(tier):
-    mt = sorted(set(MTUS_MOD14 + [1500] + ([577, 9216] if tier == "thorough" else [])))
+    mt = sorted(set(MTUS_MOD14 + [1500, 9216] + ([577, 3617, 3618] if tier == "thorough" else [])))      # 9216: more than 255 descriptors fit one Emit
     return [("main", ["--mode", "c06", "--mtu", str(m), "--wifi", "0"]) for m in mt]
 
 
@@ -98,10 +100,10 @@ FSM = {"main": {"sources": MC + ["mc/darwin.c", "checks/fsm.c"], "modes": ["c14-
 def c16_runs(tier):
     runs = []
     for a in (0, 1):
-        for part in range(7):
-            runs.append(("main", ["--a", str(a), "--b", "0", "--part", str(part), "--nparts", "7"]))
+        for part in range(7):      # the second key set runs with a clock that has just started (origin 0: "now - 60" must not wrap)
+            runs.append(("main", ["--a", str(a), "--b", "0", "--part", str(part), "--nparts", "7"] + (["--origin", "0"] if a == 1 else [])))
     runs.append(("main", ["--a", "0", "--b", "1", "--depth", "8" if tier == "thorough" else "6"]))
-    runs.append(("main", ["--a", "1", "--b", "1", "--depth", "8" if tier == "thorough" else "6"]))
+    runs.append(("main", ["--a", "1", "--b", "1", "--depth", "8" if tier == "thorough" else "6", "--origin", "0"]))
     return runs
 
 
@@ -181,6 +183,9 @@ def c01_runs(tier):
     if th:
         for part in range(4):
             runs.append(("san", ["--mode", "linux2", "--mtu", "576", "--fill", "0", "--b", "8", "--part", str(part), "--nparts", "4"]))
+    runs.append(("san", ["--mode", "hello", "--mtu", "576", "--fill", "255"]))
+    if th:
+        runs.append(("san", ["--mode", "hello", "--mtu", "1500", "--fill", "0"]))
     runs.append(("san", ["--mode", "flood", "--mtu", "576", "--fill", "0"]))
     runs.append(("san", ["--mode", "flood", "--mtu", "576", "--fill", "255", "--wifi", "1"]))
     runs.append(("daemon", ["--mode", "daemon", "--mtu", "1500"]))
@@ -206,6 +211,7 @@ def c17_runs(tier):
     runs = [("plain", ["--mode", "seq", "--mtu", "1500", "--wifi", "0"]), ("plain", ["--mode", "seq", "--mtu", "576", "--wifi", "1"]),
             ("plain", ["--mode", "seq", "--mtu", "576", "--wifi", "0", "--a", "1"]),      # B's MTU getter fails while A reports a small MTU
             ("plain", ["--mode", "seq", "--mtu", "576", "--wifi", "1", "--a", "2"]),      # all of B's per-interface getters fail
+            ("plain", ["--mode", "seq", "--mtu", "1500", "--wifi", "0", "--a", "3"]),     # every transmit refused
             ("plain", ["--mode", "seq3", "--mtu", "1500", "--wifi", "0"])]
     np1, np2 = 4, 10
     for i in range(np1):
@@ -216,7 +222,7 @@ def c17_runs(tier):
 
 
 EMIT = {"main": {"sources": MC + ["checks/emit.c"], "modes": ["c06", "c10", "c10flood"]}}
-OBS = {"main": {"sources": MC + ["checks/obs.c"], "modes": ["c07", "c07v", "c07a", "c19", "c19pump", "c19multi", "c02o"]},
+OBS = {"main": {"sources": MC + ["checks/obs.c"], "modes": ["c07", "c07v", "c07a", "c02f", "c19", "c19pump", "c19multi", "c02o"]},
        "proto": {"sources": MC + ["checks/proto.c"], "modes": ["c19p"]}}
 
 
@@ -258,7 +264,7 @@ PROPS = {
     "C01": {
         "engine": "E4",
         "builds": {"san": {"flavour": "san", "sources": SANMC + ["checks/c01.c"], "repo_extra": ["os/esp32/daemon/lltd_esp32.c"],
-                           "defs": ["-I", REPO + "/os/esp32/daemon"], "modes": ["linux", "darwin", "esp32", "flood", "linux2"]},
+                           "defs": ["-I", REPO + "/os/esp32/daemon"], "modes": ["linux", "darwin", "esp32", "flood", "linux2", "hello"]},
                    "cov": {"flavour": "tsanabi", "sources": ["mc/world.c", "mc/wire.c", "mc/report.c", "mc/sigma.c", "mc/darwin.c", "mc/tsan_hooks.c", "checks/cov.c"],
                            "repo_extra": ["os/esp32/daemon/lltd_esp32.c"], "defs": ["-I", REPO + "/os/esp32/daemon"], "modes": ["cov"]},
                    "daemon": {"flavour": "san", "sources": ["mc/report.c", "mc/forkrun.c", "mc/wire.c", "checks/c01_daemon.c"],
@@ -358,7 +364,8 @@ PROPS = {
     },
     "C02": {
         "builds": dict(PROTO, obs=OBS["main"]),
-        "runs": lambda tier: proto_runs("c02")(tier) + [("obs", ["--mode", "c02o", "--mtu", str(m), "--wifi", "0"]) for m in (MTUS_MOD20 + [1500] if tier == "thorough" else [576, 589, 592, 593, 1492, 1500])],
+        "runs": lambda tier: proto_runs("c02")(tier) + [("obs", ["--mode", "c02o", "--mtu", str(m), "--wifi", "0"]) for m in (MTUS_MOD20 + [1500] if tier == "thorough" else [576, 589, 592, 593, 1492, 1500])]
+                             + [("obs", ["--mode", "c02f", "--mtu", str(m), "--wifi", "0"]) for m in ((576, 1500, 9216) if tier == "thorough" else (576, 1500))],
         "level": "model_checking",
         "technique": "explicit-state BFS to fixpoint over the real parseFrame with an independent wire decoder as oracle, executed twice with different fresh-memory fill patterns and compared transition by transition",
         "assumptions": ["frames of the alphabet are complete (received length >= fixed part of their opcode) and the receive buffer starts zeroed; runt frames are C01's subject",
